@@ -646,3 +646,175 @@ Check C05_emit_equiv_first_order_evaluator_all :
     AD release (binop_all o) (builtin_all o) d fr' this'
        (VLam id' params (subst true (scope_map nanfix true sv) body) []) args st.
 Print Assumptions C05_emit_equiv_first_order_evaluator_all.
+
+(* ============================================================================================
+   NaN / both-quote captured data (builder xc05nan; proofs/EmitNqLit.v, EmitNqSound.v, EmitNqHO*.v;
+   definitions coq/EmitNq.v).  The two classes the earlier theorems exclude through emittable_gen /
+   emit_ok are now INSIDE: their literals are the operator expressions `(0/0)` and the `+` chain of string literals,
+   related to the value through the two facts about `/` and `+` in [binop_lit_ok].
+   ============================================================================================ *)
+Require Import Blots.EmitNq Blots.proofs.EmitNqLit Blots.proofs.EmitNqSound.
+
+(* (1) For EVERY string s — whatever mixture of quote characters — the text value_to_ast writes for it (a plain literal, or
+   the parenthesised `+` chain of the pieces between its double quotes) evaluates to exactly VStr s and leaves store and
+   scope chain unchanged: for every configuration c, every call depth (the depth lives in `apply`), every implementation
+   of the operators that concatenates two strings with `+` (binop_lit_ok; nothing else about the operators is used).
+   Induction over the split of s at double quotes (split_dq_chain).  Record keys use the same text as a computed key. *)
+Theorem C05_lit_both_quote_evaluates :
+  forall release (binop_impl : (callback -> binop -> value -> value -> store -> outcome value * store)) apply, binop_lit_ok binop_impl ->
+  forall s c, evalE release binop_impl apply c (str_to_ast s) = (Ok (VStr s), c).
+Proof. exact lit_both_quote_evaluates. Qed.
+Check C05_lit_both_quote_evaluates :
+  forall release (binop_impl : (callback -> binop -> value -> value -> store -> outcome value * store)) apply, binop_lit_ok binop_impl ->
+  forall s c, evalE release binop_impl apply c (str_to_ast s) = (Ok (VStr s), c).
+Print Assumptions C05_lit_both_quote_evaluates.
+
+(* the repaired NaN literal `(0/0)`: NaN, configuration unchanged.  The model's num has ONE NaN (Num.v: spec_float):
+   sign and payload of a NaN are not represented because blots-core cannot observe them (see notes/ext-c05nan.md) *)
+Theorem C05_lit_nan_evaluates :
+  forall release (binop_impl : (callback -> binop -> value -> value -> store -> outcome value * store)) apply, binop_lit_ok binop_impl ->
+  forall c, evalE release binop_impl apply c (num_to_ast true nnan) = (Ok (VNum nnan), c).
+Proof. exact lit_nan_evaluates. Qed.
+Check C05_lit_nan_evaluates :
+  forall release (binop_impl : (callback -> binop -> value -> value -> store -> outcome value * store)) apply, binop_lit_ok binop_impl ->
+  forall c, evalE release binop_impl apply c (num_to_ast true nnan) = (Ok (VNum nnan), c).
+Print Assumptions C05_lit_nan_evaluates.
+
+(* C05_lit_roundtrip without its two exclusions: first-order data (unique record keys) holding NaN (with the repaired
+   literal: emittable_nq nanfix v = fo v && (nanfix || no NaN)) and strings / record keys with both quote kinds, nested
+   in lists and records at any depth: the literal evaluates to EXACTLY v (same key order) and changes nothing *)
+Theorem C05_lit_roundtrip_nan_quote :
+  forall release (binop_impl : (callback -> binop -> value -> value -> store -> outcome value * store)) apply, binop_lit_ok binop_impl ->
+  forall nanfix dofix v, emittable_nq nanfix v = true ->
+  forall c, evalE release binop_impl apply c (value_to_ast nanfix dofix v) = (Ok v, c).
+Proof. exact lit_roundtrip_nq. Qed.
+Check C05_lit_roundtrip_nan_quote :
+  forall release (binop_impl : (callback -> binop -> value -> value -> store -> outcome value * store)) apply, binop_lit_ok binop_impl ->
+  forall nanfix dofix v, emittable_nq nanfix v = true ->
+  forall c, evalE release binop_impl apply c (value_to_ast nanfix dofix v) = (Ok v, c).
+Print Assumptions C05_lit_roundtrip_nan_quote.
+
+(* the transcribed `/` and `+` (EvalInst.binop_impl = Binop.eval_binop, and the complete table of EvalAll) satisfy the hypothesis *)
+Theorem C05_binop_lit_ok_inst :
+  binop_lit_ok binop_impl /\ forall o, binop_lit_ok (binop_all o).
+Proof. split; [exact binop_lit_ok_inst|exact binop_lit_ok_all]. Qed.
+Check C05_binop_lit_ok_inst :
+  binop_lit_ok binop_impl /\ forall o, binop_lit_ok (binop_all o).
+Print Assumptions C05_binop_lit_ok_inst.
+
+(* the class of the earlier theorems is inside the new one *)
+Theorem C05_emittable_gen_inside_nq :
+  forall nanfix v, emittable_gen v = true -> emittable_nq nanfix v = true.
+Proof. exact emittable_gen_nq. Qed.
+Check C05_emittable_gen_inside_nq :
+  forall nanfix v, emittable_gen v = true -> emittable_nq nanfix v = true.
+Print Assumptions C05_emittable_gen_inside_nq.
+
+(* (2) C05_emit_equiv_first_order_partial with NaN-holding and both-quote-holding captured data INSIDE: same statement,
+   captured values emittable_nq instead of emittable_gen, and one more hypothesis on the operator implementation
+   (binop_lit_ok).  Same outcome AND same store, every depth, any two call sites.  proofs/EmitNqSound.v *)
+Theorem C05_emit_equiv_first_order_nan_quote_generic :
+  forall release binop_impl builtin_impl, impl_lf_respecting binop_impl builtin_impl -> binop_lit_ok binop_impl ->
+  forall nanfix d fr fr' this this' id id' params body sv args st,
+    first_order_body body = true ->
+    free_vars body (map arg_name params ++ map fst sv) = [] ->
+    forallb (fun kv => emittable_nq nanfix (snd kv)) sv = true ->
+    (forall x, special_name x = true -> rec_get sv x = None) ->
+    (forall x, In x (map arg_name params) -> rec_get sv x = None) ->
+    rec_get sv "inputs"%string = None ->
+    (forall n, lam_name st id = Some n -> rec_get sv n = None) ->
+    lfs args = true ->
+    AD release binop_impl builtin_impl d fr this (VLam id params body sv) args st =
+    AD release binop_impl builtin_impl d fr' this'
+       (VLam id' params (subst true (scope_map nanfix true sv) body) []) args st.
+Proof. exact emit_equiv_first_order_nq. Qed.
+Check C05_emit_equiv_first_order_nan_quote_generic :
+  forall release binop_impl builtin_impl, impl_lf_respecting binop_impl builtin_impl -> binop_lit_ok binop_impl ->
+  forall nanfix d fr fr' this this' id id' params body sv args st,
+    first_order_body body = true ->
+    free_vars body (map arg_name params ++ map fst sv) = [] ->
+    forallb (fun kv => emittable_nq nanfix (snd kv)) sv = true ->
+    (forall x, special_name x = true -> rec_get sv x = None) ->
+    (forall x, In x (map arg_name params) -> rec_get sv x = None) ->
+    rec_get sv "inputs"%string = None ->
+    (forall n, lam_name st id = Some n -> rec_get sv n = None) ->
+    lfs args = true ->
+    AD release binop_impl builtin_impl d fr this (VLam id params body sv) args st =
+    AD release binop_impl builtin_impl d fr' this'
+       (VLam id' params (subst true (scope_map nanfix true sv) body) []) args st.
+Print Assumptions C05_emit_equiv_first_order_nan_quote_generic.
+
+(* ... for the transcribed evaluator, no hypothesis on the implementations (C05_emit_equiv_first_order_evaluator widened) *)
+Theorem C05_emit_equiv_first_order_nan_quote :
+  forall release nanfix d fr fr' this this' id id' params body sv args st,
+    first_order_body body = true ->
+    free_vars body (map arg_name params ++ map fst sv) = [] ->
+    forallb (fun kv => emittable_nq nanfix (snd kv)) sv = true ->
+    (forall x, special_name x = true -> rec_get sv x = None) ->
+    (forall x, In x (map arg_name params) -> rec_get sv x = None) ->
+    rec_get sv "inputs"%string = None ->
+    (forall n, lam_name st id = Some n -> rec_get sv n = None) ->
+    lfs args = true ->
+    AD release binop_impl builtin_impl d fr this (VLam id params body sv) args st =
+    AD release binop_impl builtin_impl d fr' this'
+       (VLam id' params (subst true (scope_map nanfix true sv) body) []) args st.
+Proof. exact emit_equiv_first_order_nq_evaluator. Qed.
+Check C05_emit_equiv_first_order_nan_quote :
+  forall release nanfix d fr fr' this this' id id' params body sv args st,
+    first_order_body body = true ->
+    free_vars body (map arg_name params ++ map fst sv) = [] ->
+    forallb (fun kv => emittable_nq nanfix (snd kv)) sv = true ->
+    (forall x, special_name x = true -> rec_get sv x = None) ->
+    (forall x, In x (map arg_name params) -> rec_get sv x = None) ->
+    rec_get sv "inputs"%string = None ->
+    (forall n, lam_name st id = Some n -> rec_get sv n = None) ->
+    lfs args = true ->
+    AD release binop_impl builtin_impl d fr this (VLam id params body sv) args st =
+    AD release binop_impl builtin_impl d fr' this'
+       (VLam id' params (subst true (scope_map nanfix true sv) body) []) args st.
+Print Assumptions C05_emit_equiv_first_order_nan_quote.
+
+(* ... and for the complete operator table / built-in set of EvalAll.v, every oracle *)
+Theorem C05_emit_equiv_first_order_nan_quote_all :
+  forall o release nanfix d fr fr' this this' id id' params body sv args st,
+    first_order_body body = true ->
+    free_vars body (map arg_name params ++ map fst sv) = [] ->
+    forallb (fun kv => emittable_nq nanfix (snd kv)) sv = true ->
+    (forall x, special_name x = true -> rec_get sv x = None) ->
+    (forall x, In x (map arg_name params) -> rec_get sv x = None) ->
+    rec_get sv "inputs"%string = None ->
+    (forall n, lam_name st id = Some n -> rec_get sv n = None) ->
+    lfs args = true ->
+    AD release (binop_all o) (builtin_all o) d fr this (VLam id params body sv) args st =
+    AD release (binop_all o) (builtin_all o) d fr' this'
+       (VLam id' params (subst true (scope_map nanfix true sv) body) []) args st.
+Proof. exact emit_equiv_first_order_nq_all. Qed.
+Check C05_emit_equiv_first_order_nan_quote_all :
+  forall o release nanfix d fr fr' this this' id id' params body sv args st,
+    first_order_body body = true ->
+    free_vars body (map arg_name params ++ map fst sv) = [] ->
+    forallb (fun kv => emittable_nq nanfix (snd kv)) sv = true ->
+    (forall x, special_name x = true -> rec_get sv x = None) ->
+    (forall x, In x (map arg_name params) -> rec_get sv x = None) ->
+    rec_get sv "inputs"%string = None ->
+    (forall n, lam_name st id = Some n -> rec_get sv n = None) ->
+    lfs args = true ->
+    AD release (binop_all o) (builtin_all o) d fr this (VLam id params body sv) args st =
+    AD release (binop_all o) (builtin_all o) d fr' this'
+       (VLam id' params (subst true (scope_map nanfix true sv) body) []) args st.
+Print Assumptions C05_emit_equiv_first_order_nan_quote_all.
+
+(* (3) the hypotheses are satisfiable: a closure capturing a record that holds [NaN, a string with both quote kinds] and a key with both
+   quote kinds; outside emittable_gen, inside emittable_nq; original and reloaded emission computed *)
+Definition nq_data : value :=
+  VRec [("d"%string, VList [VNum nnan; VStr "a""b'c"%string]); ("k""'"%string, VBool true)].
+Definition nq_body : expr :=
+  EList [Cm [] (EDot (EId "r"%string) "d"%string) None; Cm [] (EAccess (EId "r"%string) (EId "x"%string)) None].
+Definition nq_fun : value := VLam 0%nat [AReq "x"%string] nq_body [("r"%string, nq_data)].
+Example C05_nan_quote_premises_example :
+  emittable_gen nq_data = false /\ emittable_nq true nq_data = true /\
+  first_order_body nq_body = true /\
+  free_vars nq_body (map arg_name [AReq "x"%string] ++ map fst [("r"%string, nq_data)]) = [] /\
+  call_on nq_fun (VStr "k""'"%string) = Ok (VList [VList [VNum nnan; VStr "a""b'c"%string]; VBool true]) /\
+  call_on (reloaded true true nq_fun) (VStr "k""'"%string) = call_on nq_fun (VStr "k""'"%string).
+Proof. vm_compute. repeat split; reflexivity. Qed.
